@@ -61,6 +61,9 @@ class Stats:
         self.ops_run = 0
         self.distinct_ops = set()
         self.child_wall = 0.0
+        self.sweep_runs = 0
+        self.sweep_functions = set()
+        self.lock_yields = 0
 
     def add(self, spec, res):
         sub = spec['sub']
@@ -98,6 +101,7 @@ class Stats:
             for op in cl:
                 self.distinct_ops.add(O.op_key(op))
         self.child_wall += res.get('wall', 0)
+        self.lock_yields += res.get('lock_yields', 0)
         if len(self.samples) < 3 and sub == 'S1' and res['nswitch'] and (len(self.samples) == 0 or res['fired']):
             self.samples.append(sample_of(spec, res))
 
@@ -284,6 +288,77 @@ def explore(tier, seed, repo, budget_s, stats, found, ref, probes, pool, t_end, 
         raise HarnessError('%s seed %s: %s' % (spec['sub'], spec['seed'], err))
 
 
+def focus_sweep(seed, stats, found, ref, probes, pool, t_end, per_class, reps):
+    """Systematic part of the search (thorough tier): for every family class, for a few of its families, for
+    EVERY repo function that at least two clients of the base scenario execute (grammar actions and lexer rules
+    excepted), runs with dense pre-emption inside that one function.  Random schedules find races with wide
+    windows; this finds the ones whose window is two adjacent lines of one function."""
+    import copy as _copy
+    c = corpus()
+    classes = gen.family_classes(c)
+    rng = random.Random('C20/SWEEP/%d' % seed)
+    bases = []
+    i = 0
+    for cl in sorted(classes):
+        fams = list(classes[cl])
+        rng.shuffle(fams)
+        for fam in fams[:per_class]:
+            if len(c['families'][fam]) < 2:
+                continue
+            bases.append(gen.gen_sweep_base(seed * 1_000_000 + 900_000 + i, c, ref, fam))
+            i += 1
+    lists = {}
+
+    def on_list(spec, res):
+        lists[spec['_b']] = res.get('fns', []) if 'harness_error' not in res else []
+
+    jobs = []
+    for bi, b in enumerate(bases):
+        q = dict(b)
+        q['cmd'] = 'focus_list'
+        q['_b'] = bi
+        jobs.append((b['hashseed'], q))
+    pool.run_jobs(jobs, on_result=on_list, deadline=t_end)
+    harness = []
+    nfun = [0]
+
+    def on(spec, res):
+        if 'harness_error' in res:
+            harness.append((spec, res['harness_error']))
+            return False
+        stats.add(spec, res)
+        stats.sweep_runs += 1
+        if res.get('focus'):
+            stats.sweep_functions.add(tuple(res['focus'][:2]))
+        if res['mismatches']:
+            found.add(spec, res)
+            if found.full():
+                return False
+        return None
+
+    jobs = []
+    for bi, b in enumerate(bases):
+        fns = [f for f in lists.get(bi, []) if not (f[0].endswith(('parser.py', 'lexer.py')) and not f[0].startswith('sly'))]
+        for f in fns:
+            for r in range(reps):
+                spec = _copy.deepcopy(b)
+                spec['strategy'] = {'kind': 'focus', 'fn': f, 'p': (1.0, 0.5, 0.3)[r % 3]}
+                spec['sched_seed'] = (b['sched_seed'] + r * 7919 + hash_str(f[1])) & 0x3FFFFFFF
+                spec = gen.attach(spec, ref, probes)
+                jobs.append((spec['hashseed'], spec))
+    rng.shuffle(jobs)
+    pool.run_jobs(jobs, on_result=on, deadline=t_end)
+    if harness:
+        spec, err = harness[0]
+        raise HarnessError('focus sweep seed %s: %s' % (spec['seed'], err))
+    return len(jobs)
+
+
+def hash_str(s):
+    import zlib
+    return zlib.crc32(s.encode())
+
+
 def main(tier='quick', seed=0, repo=None):
     t0 = time.time()
     repo = repo or os.environ.get('VERIF_REPO')
@@ -292,10 +367,12 @@ def main(tier='quick', seed=0, repo=None):
     budget_s = float(os.environ.get('VERIF_BUDGET_S', '900' if tier == 'thorough' else '75'))
     if tier == 'quick':
         n_s1, n_s2, n_s3, s3_slice, instr_frac, sa_frac, max_min = 1600, 800, 16, 260, 0.08, 0.0, 150
-        fr = 0.72
+        fr = 0.62
+        sweep = (1, 1, 0.35)
     else:
         n_s1, n_s2, n_s3, s3_slice, instr_frac, sa_frac, max_min = 10 ** 7, 10 ** 7, 64, None, 0.25, 0.15, 300
-        fr = 0.8
+        fr = 0.6
+        sweep = (3, 3, 0.6)
     stats = Stats()
     found = Found()
     s3_viol = []
@@ -326,6 +403,9 @@ def main(tier='quick', seed=0, repo=None):
         t_end = now + left * fr
         if not found.full():
             explore(tier, seed, repo, budget_s, stats, found, ref, probes, sim_pool, t_end, n_s1, n_s2, instr_frac, sa_frac)
+        if not found.full() and sweep[0]:
+            t_sw = time.time() + max(5.0, (budget_s - (time.time() - t0)) * sweep[2])
+            focus_sweep(seed, stats, found, ref, probes, sim_pool, t_sw, sweep[0], sweep[1])
         sim_pool.close()
         # ---------------- S3
         s3_runs = 0
@@ -408,6 +488,8 @@ def main(tier='quick', seed=0, repo=None):
             'op_kind_overlap_pairs': sorted('%s|%s' % p for p in stats.kind_pairs),
             'same_function_overlap_distinct_functions': len(stats.overlap),
             'same_function_overlap_named': {n: stats.overlap.get(n, 0) for n in NAMED_PROBES},
+            'focus_sweep_runs': stats.sweep_runs, 'focus_sweep_distinct_functions': len(stats.sweep_functions),
+            'lock_yields (client blocked on a lock held by a parked client)': stats.lock_yields,
             'sim_runs_per_hour': int(sim_runs / max(wall, 1e-6) * 3600), 'seeds_per_hour': int(evaluations / max(wall, 1e-6) * 3600),
             'reference_seconds': round(t_ref, 1), 'components': COMPONENTS,
             'exhaustive': False,
